@@ -671,7 +671,7 @@ func (c *seqCase) audit(wroteBase bool, op string, pre [][]string) {
 		}
 		rp.dead = true
 		c.run.Obs("replicas_dropped_after_backend_divergence", 1)
-		sig := "backend-content-differs-from-ordered-map-after-acknowledged-write:" + rp.kind
+		sig := sigBackendContent + rp.kind
 		how := "differs from both the model and the previous content"
 		if eqStrs(got, pre[i]) {
 			how = "is unchanged, the write is not visible at all"
@@ -679,6 +679,42 @@ func (c *seqCase) audit(wroteBase bool, op string, pre [][]string) {
 		_ = op
 		c.violation(sig, fmt.Sprintf("after %q the %s backend holds %v, the model %v (before the operation the backend held %v: the content %s)", c.log[len(c.log)-1], rp.kind, got, want, pre[i], how),
 			map[string]any{"backend": rp.kind, "content": got, "model": want, "content_before": pre[i]})
+	}
+}
+
+// sigBackendContent (+ backend kind): the backend itself, scanned directly,
+// does not hold what was written to it - right after an acknowledged write, or
+// found later when an answer of that backend alone differed.
+const sigBackendContent = "backend-content-differs-from-ordered-map:"
+
+// suspect re-audits the backends whose answers differed: if the backend's own
+// content differs from the model the divergence is filed under the backend
+// signature (once), the replica is dropped and its entry removed from fails.
+func (c *seqCase) suspect(fails map[string]string) {
+	if len(fails) == 0 || len(fails) == len(c.live()) && len(fails) > 1 {
+		return // a difference shared by all backends is not a backend's fault
+	}
+	var want []string
+	for _, b := range c.firstBytes() {
+		for _, kv := range refmap.Seek(c.m.Base, refmap.Range{Prefix: []byte{b}}, true) {
+			v := string(kv.V)
+			want = append(want, hex.EncodeToString([]byte(kv.K))+"="+v)
+		}
+	}
+	for _, rp := range c.reps {
+		if _, bad := fails[rp.kind]; !bad || rp.dead {
+			continue
+		}
+		c.run.Obs("backend_content_audits_on_suspicion", 1)
+		got := c.dumpBase(rp)
+		if eqStrs(got, want) {
+			continue
+		}
+		rp.dead = true
+		delete(fails, rp.kind)
+		c.run.Obs("replicas_dropped_after_backend_divergence", 1)
+		c.violation(sigBackendContent+rp.kind, fmt.Sprintf("an answer of the %s backend alone differed; scanned directly it holds %v, the model %v (every write since the last successful audit went to the cache layers only: the content changed without a write)", rp.kind, got, want),
+			map[string]any{"backend": rp.kind, "content": got, "model": want})
 	}
 }
 
@@ -886,6 +922,7 @@ func (c *seqCase) ask(q *query) ([][]string, []string) {
 	if knownSig != "" {
 		c.violation(knownSig, fmt.Sprintf("%s: model=%v mem=%v bolt=%v leveldb=%v", q, shown["model"], shown["mem"], shown["bolt"], shown["leveldb"]), shown)
 	}
+	c.suspect(fails)
 	if len(fails) > 0 {
 		var first string
 		for _, k := range backendKinds {
@@ -945,6 +982,7 @@ func (c *seqCase) gets(target int) {
 				}
 			}
 			c.run.Obs("point_reads_compared_with_model", int64(len(c.reps)))
+			c.suspect(fails)
 			if len(fails) > 0 {
 				var first string
 				for _, kd := range backendKinds {
@@ -1036,6 +1074,7 @@ func (c *seqCase) seekGC(li int) {
 	if knownSig != "" {
 		c.violation(knownSig, fmt.Sprintf("SeekGC visits: %v", shown), shown)
 	}
+	c.suspect(fails)
 	if len(fails) > 0 {
 		var first string
 		for _, kd := range backendKinds {
